@@ -39,11 +39,13 @@ package linter
 // NewChecker runs the registered constructor closure of the checker: an arbitrary function value.
 // Its contract is assumed (listed in the evidence); constructors that write the shared Context
 // (importShadow sets ctx.Require.PkgObjects) do so before any Check and are outside this frame.
+//@ spec validChecker(c *Checker) bool = c != nil && !isNilIface(c.fileWalker) && c.Info != nil
+
 //@ func NewChecker
 //@   trusted constructor closures are dynamic calls; contract assumed
 //@   fresh
 //@   assigns nothing
-//@   ensures @checker-or-error result1 == nil ==> (result0 != nil && result0.Info == info)
+//@   ensures @checker-or-error result1 == nil ==> (validChecker(result0) && result0.Info == info)
 
 //@ func (*Context).SetGoVersion
 //@   prop C15 C19
@@ -117,3 +119,46 @@ package linter
 //@   loop 1 body @appends-one len(infoList) == old(len(infoList)) + 1 && infoList[len(infoList) - 1] != nil
 //@   loop 1 body @copy-shares-params infoList[len(infoList) - 1].Params == proto.info.Params
 //@   loop 1 body @copy-keeps-name-and-tags infoList[len(infoList) - 1].Name == proto.info.Name && infoList[len(infoList) - 1].Tags == proto.info.Tags
+
+// Check: the warnings buffer is emptied before the walker runs (C03); the frame is what property C05 states
+// about checkers (they write only their own state) and is assumed here, not verified.
+//@ func (*Checker).Check
+//@   prop C03
+//@   requires validChecker(c)
+//@   assigns c.ctx.warnings
+//@   trusted_frame the file walker is an arbitrary checker; that it writes only checker-owned state is property C05
+//@   call FileWalker.WalkFile requires @buffer-emptied-before-walk len(c.ctx.warnings) == 0
+
+//@ func (*Context).SetPackageInfo
+//@   prop C03
+//@   requires c != nil && c.TypesInfo != nil
+//@   assigns c.Pkg, object(c.TypesInfo)
+//@   ensures @pkg-set c.Pkg == pkg
+//@   ensures @types-replaced info != nil ==> deref(c.TypesInfo) == deref(info)
+//@   ensures @types-kept info == nil ==> deref(c.TypesInfo) == old(deref(c.TypesInfo))
+
+//@ func (*Context).SetFileInfo
+//@   prop C03
+//@   nosafety import tables are built with unchecked assertions that hold for well-typed files (see resolvePkgObjects)
+//@   requires c != nil && f != nil
+//@   assigns c.Filename, c.PkgObjects, c.PkgRenames
+//@   ensures @name-set c.Filename == name
+
+//@ func resolvePkgObjects
+//@   prop C03
+//@   nosafety the two unchecked assertions to *types.PkgName hold for well-typed files (go/types records a PkgName for every import spec)
+//@   requires ctx != nil && f != nil
+//@   assigns ctx.PkgObjects
+//@   ensures @fresh-table fresh(ctx.PkgObjects)
+
+//@ func resolvePkgRenames
+//@   prop C03
+//@   nosafety
+//@   requires ctx != nil && f != nil
+//@   assigns ctx.PkgRenames
+//@   ensures @fresh-table fresh(ctx.PkgRenames)
+
+//@ func (Warning).HasQuickFix
+//@   prop C08
+//@   pure
+//@   ensures @has-fix-iff-replacement result <==> (warn.Suggestion.Replacement != nil)
